@@ -847,7 +847,20 @@ def r07_19(run, model):
     f = model.fn("new", MONO, impl="Ctx")
     ins = [c for c in S.walk(f.body) if c["k"] == "MethodCall" and c["method"] in ("insert", "entry") and "index" in S.norm_ws(run.facts.text(MONO, c["recv"]["sp"]))]
     if not ins:
-        raise AnalysisIncomplete("Ctx::new: the insertion into the inherent-method index was not found")
+        # the index may be collected from an iterator chain instead of filled by a loop: the test then sits in a filter / filter_map closure
+        built = [l for l in S.find(f.body, "Local") if l.get("init") is not None and any("index" in b for b in S.pat_bindings(l["pat"])) and
+                 any(c["k"] == "MethodCall" and c["method"] == "collect" for c in S.walk(l["init"]))]
+        if not built:
+            raise AnalysisIncomplete("Ctx::new: the construction of the inherent-method index was not found")
+        for i, l in enumerate(built, 1):
+            t = S.norm_ws(run.facts.text(MONO, l["init"]["sp"]))
+            ok = re.search(r"!\w+(\.\w+)*\.generics\.is_empty\(\)|generics\.len\(\)>0", t) is not None and \
+                any(c["k"] == "MethodCall" and c["method"] in ("filter", "filter_map") for c in S.walk(l["init"]))
+            run.ob("R07.19", f"Ctx::new|index entry #{i} is made for generic functions only", ok, site(MONO, l["sp"]),
+                   "the collected chain keeps generic definitions only" if ok else "the collected chain does not test `generics`: every inherent method enters the index",
+                   witness="impl[T] Box[T] { fn tag } then impl Box[int32] { fn tag }: b.tag() at Box[string] resolves to the int32 method; "
+                           "`inherent#Box#Box[T]#tag__T_string` is never generated and the Go calls an undefined function")
+        return
     par = S.Parents(f.body)
     for i, c in enumerate(ins, 1):
         guards = [a for a in par.ancestors(c) if a["k"] == "If" and S.span_contains(a["then"]["sp"], c["sp"])]
